@@ -1,11 +1,25 @@
 (** C07 — obligations over the facts regenerated from /repo (Gen/C07Facts.v). *)
 From Coq Require Import List Bool Arith NArith ZArith.
 Import ListNotations.
-Require Import Nib.C07.Model Nib.C07.Spec Nib.C07.Facts Nib.C07.Property.
+Require Import Nib.C07.Model Nib.C07.Spec Nib.C07.Facts Nib.C07.Proofs Nib.C07.Property.
 Require Import Nib.Gen.C07Facts.
 
+(** the decorator chain of NewAnteHandlerEVM as it stands in /repo is well formed *)
 Theorem C07_current_chain_wf : chain_wf evm_ante_chain = true.
 Proof. vm_compute. reflexivity. Qed.
 
+(** nonce check is `!=`, increment is +1 on the account read, signer is built from this chain's
+    config, the msg server brackets the EVM with SetNonce(n) / SetNonce(n+1) *)
 Theorem C07_current_facts_ok : facts_ok current_facts = true.
 Proof. vm_compute. reflexivity. Qed.
+
+Theorem C07_holds_for_current_tree :
+  forall chain recover A s ts, hash_binding chain recover ts ->
+  P chain recover A s (trace chain recover evm_ante_chain s ts) /\
+  forall u, (count_occ Nat.eq_dec (all_executed (trace chain recover evm_ante_chain s ts)) u <= 1)%nat.
+Proof.
+  intros chain recover A s ts Hb. split.
+  - exact (C07_model_satisfies_P chain recover A evm_ante_chain s ts C07_current_chain_wf Hb).
+  - intro u. exact (C07_at_most_once chain recover evm_ante_chain s ts u C07_current_chain_wf Hb).
+Qed.
+Print Assumptions C07_holds_for_current_tree.
